@@ -262,6 +262,8 @@ func Run(c string) string {
 			return "err other"
 		}
 		return "ok " + EncScript(t) + " " + lib.Bytes(b) + " " + showParse(string(b))
+	case f[0] == "large" && len(f) == 3:
+		return largeCase(f[1], lib.Atoi(f[2]))
 	case f[0] == "deepparse" && len(f) == 2:
 		return deepParse(lib.Atoi(f[1]))
 	case f[0] == "expr" && len(f) == 2:
@@ -469,6 +471,8 @@ func OracleC03(c, res string) string {
 		return "panic: " + res
 	}
 	switch f[0] {
+	case "large":
+		return OracleLarge(c, res)
 	case "parse", "parsex", "load":
 		tree, accepted := treeOfResult(r)
 		if msg := checkGrammar(string(lib.ParseBytes(f[1])), accepted, tree); msg != "" {
@@ -617,6 +621,8 @@ func OracleC07(c, res string) string {
 		return "panic: " + res
 	}
 	switch f[0] {
+	case "large":
+		return OracleLarge(c, res)
 	case "print":
 		t := DecScript(f[1])
 		if !InScope(t) {
